@@ -5,6 +5,7 @@ package rules
 
 import (
 	"fmt"
+	"go/token"
 	"go/types"
 	"strings"
 
@@ -32,6 +33,13 @@ func init() {
 	extend("C18", "(R18.6) the loop that strips the controllers' finalizer from generated objects sees terminating objects too: neither it nor the listing it uses filters on the deletion timestamp (a terminating object is exactly the one waiting for its finalizer).", r4C18)
 	imp("C05", "C18", map[string]string{"R18.6": "R5.11"}, "(R5.11 = C18 R18.6) a generated canary Deployment that is already terminating still loses its finalizer at Finalize, so it does not outlive the release.")
 	extend("C03", "(R3.7) PatchStableService answers 'pinned, no retry' without having examined the Service selector only for configurations that have no Service to pin (no reference, traffic-routing-only, no generated canary Service) — never because a read failed; (R3.8) the admission validator and every consumer turn a step's traffic string into a number with the same parsing function, so what was validated is what gets routed.", r4C03)
+	extend("C15", "(R15.7) the annotations and labels written to a custom network resource are the script's result (or a fresh map), never the live object's own map: otherwise what an earlier step wrote survives into a step whose script sets nothing; (R15.8) Finalise answers without error only after the loop over all referenced resources has ended.", r4C15)
+	imp("C18", "C15", map[string]string{"R15.8": "R18.7"}, "(R18.7 = C15 R15.8) the custom provider's Finalise visits every referenced resource before it can report done, so the finalizer is not dropped with a resource still unrestored.")
+	imp("C05", "C15", map[string]string{"R15.8": "R5.12"}, "(R5.12 = C15 R15.8) every referenced custom resource is restored before Finalise reports done.")
+	extend("C16", "(R16.8) every loop of the Lua/JSON bridge whose condition depends on a cursor advances the cursor on every way round (a `continue` before the advance spins forever inside a Go call no Lua deadline can interrupt); (R16.9) Decode does not switch the JSON decoder to json.Number while DecodeValue turns json.Number into a Lua string (numbers would reach scripts as strings).", r4C16)
+	extend("C17", "(R17.7) every call of ResolveFenceposts passes both the strategy's maxSurge and its maxUnavailable: the zero/zero correction depends on both.", r4C17)
+	extend("C19", "(R19.7) every List issued by the controllers, webhooks and finders is restricted to one namespace (InNamespace or ListOptions.Namespace), directly or by every caller that supplies the options — a label that carries only an object name matches same-named objects of other namespaces; (R19.8) UpdateFinalizer computes the new finalizer list from the object it has just fetched, not from the caller's (possibly stale) copy: two rollouts sharing a TrafficRouting would overwrite each other's finalizers.", r4C19)
+	imp("C18", "C19", map[string]string{"R19.8": "R18.8"}, "(R18.8 = C19 R19.8) a finalizer is added or removed on the fresh list, so no other holder's finalizer is dropped or resurrected.")
 	extend("C12", "(R12.8) the ordered filter sorts the pods by ordinal before it classifies them: the truncated prefix of the low-priority list must not depend on list order.", r4C12)
 }
 
@@ -505,4 +513,385 @@ func r4C12(c *Ctx) {
 		detail = "the pods are read at " + p.Pos(at.Pos()) + " before any sort of the list: which low-priority pods fall into the truncated prefix then depends on the order the informer returned them in, so a pod labelled on one pass can be filtered out on the next"
 	}
 	c.Ob("R12.8", "FilterPodsForOrderedUpdate#sort-before-classify", fn.Pos(), !reach, "a sort of the pods precedes the first read of an element", detail)
+}
+
+// ---------------------------------------------------------------- C15 R15.7, R15.8
+
+// loopBlocks: blocks that lie on a cycle through b.
+func loopBlocks(b *ssa.BasicBlock) map[*ssa.BasicBlock]bool {
+	fwd := reachBlocks(b, false)
+	bwd := reachBlocks(b, true)
+	out := map[*ssa.BasicBlock]bool{}
+	for x := range fwd {
+		if bwd[x] {
+			out[x] = true
+		}
+	}
+	return out
+}
+
+func r4C15(c *Ctx) {
+	p := c.Prog
+	c.Rule("R15.7", "annotations / labels written to a custom resource do not alias the live object's maps", 2)
+	cu := p.Func("pkg/trafficrouting/network/customNetworkProvider.customController.compareAndUpdateObject")
+	if cu == nil {
+		c.Unresolved("R15.7", "customController.compareAndUpdateObject")
+	} else {
+		for _, ci := range AllCalls(cu) {
+			cc := ci.Common()
+			var m string
+			if cc.IsInvoke() {
+				m = cc.Method.Name()
+			} else if f := cc.StaticCallee(); f != nil {
+				m = f.Name()
+			}
+			if m != "SetAnnotations" && m != "SetLabels" {
+				continue
+			}
+			arg := cc.Args[len(cc.Args)-1]
+			getter := "Get" + strings.TrimPrefix(m, "Set")
+			bad := ""
+			for _, lf := range Leaves(Forwarded(arg), ci.Block()) {
+				if call, ok := lf.V.(*ssa.Call); ok {
+					cn := ""
+					if call.Call.IsInvoke() {
+						cn = call.Call.Method.Name()
+					} else if f := call.Call.StaticCallee(); f != nil {
+						cn = f.Name()
+					}
+					if cn == getter {
+						bad = "one of the values that reach " + m + " is the live object's own " + getter + "() map (" + p.Pos(call.Pos()) + ")"
+					}
+				}
+			}
+			c.Ob("R15.7", "compareAndUpdateObject#"+m, ci.Pos(), bad == "", "the map handed to "+m+" is the script's result or a fresh map",
+				ifs(bad != "", bad+": keys written for an earlier step stay in place when the script's output for this step has none, so steps accumulate"))
+		}
+	}
+
+	c.Rule("R15.8", "Finalise of the custom provider cannot answer without error from inside the loop over the referenced resources", 1)
+	fin := p.Func("pkg/trafficrouting/network/customNetworkProvider.customController.Finalise")
+	if fin == nil {
+		c.Unresolved("R15.8", "customController.Finalise")
+		return
+	}
+	var inLoop map[*ssa.BasicBlock]bool
+	for _, b := range fin.Blocks {
+		for _, in := range b.Instrs {
+			switch x := in.(type) {
+			case *ssa.IndexAddr, *ssa.Index:
+				var base ssa.Value
+				if ia, ok := x.(*ssa.IndexAddr); ok {
+					base = ia.X
+				} else {
+					base = x.(*ssa.Index).X
+				}
+				if t := TermOf(base); MField("TrafficConf")(t) || t.Any(MField("TrafficConf")) {
+					inLoop = loopBlocks(b)
+				}
+			}
+		}
+	}
+	if inLoop == nil {
+		c.Unresolved("R15.8", "customController.Finalise: loop over conf.TrafficConf")
+		return
+	}
+	bad := ""
+	succ := successReturn(fin)
+	for b := range inLoop {
+		for _, in := range b.Instrs {
+			if succ(in) {
+				bad = "the return at " + p.Pos(in.Pos()) + " lies inside the loop and can carry a nil error"
+			}
+		}
+	}
+	// early exits: edges that leave the loop from a block other than its header (break / return in the body)
+	header := map[*ssa.BasicBlock]bool{}
+	for b := range inLoop {
+		for _, pr := range b.Preds {
+			if !inLoop[pr] {
+				header[b] = true
+			}
+		}
+	}
+	for lb := range inLoop {
+		if header[lb] {
+			continue
+		}
+		for _, sblk := range lb.Succs {
+			if inLoop[sblk] {
+				continue
+			}
+			if r, at := CanReach(Point{Block: sblk}, succ, ReachOpts{}); r {
+				bad = "the return at " + p.Pos(at.Pos()) + " is reached by leaving the loop body early (from " + p.Pos(firstPos(lb)) + ") and can carry a nil error"
+			}
+		}
+	}
+	c.Ob("R15.8", "customController.Finalise#no-success-inside-loop", fin.Pos(), bad == "", "success is answered only after every referenced resource was visited",
+		ifs(bad != "", bad+": the resources listed after the current one are never restored, yet the caller is told the step is complete"))
+}
+
+func firstPos(b *ssa.BasicBlock) token.Pos {
+	for _, in := range b.Instrs {
+		if in.Pos() != token.NoPos {
+			return in.Pos()
+		}
+	}
+	return token.NoPos
+}
+
+// ---------------------------------------------------------------- C16 R16.8, R16.9
+
+func r4C16(c *Ctx) {
+	p := c.Prog
+	c.Rule("R16.8", "cursor-driven loops of the Lua/JSON bridge advance the cursor on every iteration", 2)
+	n := 0
+	var usesNumber ssa.Instruction
+	for _, fn := range p.RepoFuncs() {
+		if !strings.HasPrefix(FuncName(fn), "pkg/util/luamanager.") {
+			continue
+		}
+		for _, ci := range AllCalls(fn) {
+			if strings.HasSuffix(CalleeName(ci.Common()), "json.Decoder.UseNumber") {
+				usesNumber = ci.(ssa.Instruction)
+			}
+		}
+		for _, b := range fn.Blocks {
+			loop := loopBlocks(b)
+			if !loop[b] {
+				continue
+			}
+			for _, in := range b.Instrs {
+				ph, ok := in.(*ssa.Phi)
+				if !ok {
+					break
+				}
+				// the phi must feed the condition that decides whether the loop goes on
+				feeds := false
+				for _, lb := range fn.Blocks {
+					if !loop[lb] || len(lb.Instrs) == 0 {
+						continue
+					}
+					iff, ok := lb.Instrs[len(lb.Instrs)-1].(*ssa.If)
+					if !ok {
+						continue
+					}
+					exits := false
+					for _, s := range lb.Succs {
+						if !loop[s] {
+							exits = true
+						}
+					}
+					if exits && BackwardSlice(iff.Cond)[ph] {
+						feeds = true
+					}
+				}
+				if !feeds {
+					continue
+				}
+				n++
+				bad := ""
+				for i, e := range ph.Edges {
+					pred := b.Preds[i]
+					if !loop[pred] {
+						continue
+					}
+					v := e
+					for k := 0; k < 8; k++ {
+						q, ok := v.(*ssa.Phi)
+						if !ok || q == ph {
+							break
+						}
+						// a phi that merges only ph itself is no progress either
+						same := true
+						for _, qe := range q.Edges {
+							if qe != ssa.Value(ph) {
+								same = false
+							}
+						}
+						if same {
+							v = ph
+						}
+						break
+					}
+					if v == ssa.Value(ph) {
+						bad = "on the way back from block " + fmt.Sprint(pred.Index) + " the cursor " + ph.Comment + " is unchanged"
+					}
+				}
+				c.Ob("R16.8", shortName(FuncName(fn))+"#loop("+ph.Comment+")", ph.Pos(), bad == "", "the loop cursor changes on every back edge",
+					ifs(bad != "", bad+": the loop spins forever inside a Go call, which the script's context deadline cannot interrupt"))
+			}
+		}
+	}
+	if n == 0 {
+		c.Unresolved("R16.8", "cursor-driven loops in pkg/util/luamanager")
+	}
+
+	c.Rule("R16.9", "numbers decoded from JSON reach scripts as Lua numbers", 1)
+	dv := p.Func("pkg/util/luamanager.DecodeValue")
+	if dv == nil {
+		c.Unresolved("R16.9", "luamanager.DecodeValue")
+		return
+	}
+	numberAsString := false
+	for _, b := range dv.Blocks {
+		for _, in := range b.Instrs {
+			ta, ok := in.(*ssa.TypeAssert)
+			if !ok || !strings.HasSuffix(ta.AssertedType.String(), "encoding/json.Number") {
+				continue
+			}
+			// what is built from the asserted value?
+			for _, b2 := range dv.Blocks {
+				for _, in2 := range b2.Instrs {
+					if cv, ok := in2.(*ssa.ChangeType); ok && strings.HasSuffix(cv.Type().String(), "lua.LString") && BackwardSlice(cv.X)[ta] {
+						numberAsString = true
+					}
+					if cv, ok := in2.(*ssa.Convert); ok && strings.HasSuffix(cv.Type().String(), "lua.LString") && BackwardSlice(cv.X)[ta] {
+						numberAsString = true
+					}
+				}
+			}
+		}
+	}
+	ok := !(usesNumber != nil && numberAsString)
+	pos := dv.Pos()
+	if usesNumber != nil {
+		pos = usesNumber.Pos()
+	}
+	c.Ob("R16.9", "luamanager.Decode#numbers-stay-numbers", pos, ok, "the decoder's number representation is one DecodeValue maps to a Lua number",
+		ifs(!ok, "the JSON decoder is switched to json.Number, and DecodeValue converts json.Number to a Lua string: every decoded number reaches the script as a string"))
+}
+
+// ---------------------------------------------------------------- C17 R17.7
+
+func r4C17(c *Ctx) {
+	p := c.Prog
+	c.Rule("R17.7", "ResolveFenceposts is given both rolling-update bounds", 2)
+	rf := p.Func("pkg/controller/deployment/util.ResolveFenceposts")
+	if rf == nil {
+		c.Unresolved("R17.7", "deployment/util.ResolveFenceposts")
+		return
+	}
+	for _, cs := range p.Callers(rf) {
+		if cs.Kind != "static" || len(cs.Args) < 2 {
+			continue
+		}
+		a0, a1 := TermOf(cs.Args[0]), TermOf(cs.Args[1])
+		has := func(t *Term, f string) bool { return MField(f)(t) || t.Any(MField(f)) }
+		ok := has(a0, "MaxSurge") && has(a1, "MaxUnavailable")
+		c.Ob("R17.7", shortName(FuncName(cs.Caller))+"#ResolveFenceposts-args", cs.Instr.Pos(), ok, "maxSurge and maxUnavailable are both passed",
+			ifs(!ok, "called with ("+a0.String()+", "+a1.String()+"): with one bound hidden the zero/zero correction turns a maxUnavailable of 0 into 1 although maxSurge is positive, so one available pod too many may be taken down"))
+	}
+}
+
+// ---------------------------------------------------------------- C19 R19.7, R19.8
+
+func r4C19(c *Ctx) {
+	p := c.Prog
+	c.Rule("R19.7", "List calls are restricted to one namespace", 10)
+	exempt := map[string]string{
+		"pkg/util/client.":              "delegating client: forwards the caller's options unchanged",
+		"pkg/controller/deployment.MutatingWebhookEventHandler.enqueue": "webhook-configuration event fans out to every advanced Deployment of the cluster, each enqueued under its own namespaced key",
+	}
+	var nsIn func(v ssa.Value, fn *ssa.Function, depth int) bool
+	nsIn = func(v ssa.Value, fn *ssa.Function, depth int) bool {
+		for x := range BackwardSlice(v) {
+			ts := x.Type().String()
+			if strings.HasSuffix(ts, "controller-runtime/pkg/client.InNamespace") {
+				return true
+			}
+			if al, ok := x.(*ssa.Alloc); ok && strings.HasSuffix(al.Type().String(), "client.ListOptions") {
+				for _, st := range AllocStoresOf(al) {
+					if fa, ok := st.Addr.(*ssa.FieldAddr); ok {
+						if n, _ := FieldOf(fa); n == "Namespace" {
+							return true
+						}
+					}
+				}
+			}
+			if par, ok := x.(*ssa.Parameter); ok && depth < 2 && strings.Contains(par.Type().String(), "ListOption") {
+				// options supplied by the callers: every caller must restrict
+				idx := -1
+				for i, q := range fn.Params {
+					if q == par {
+						idx = i
+					}
+				}
+				cs := p.Callers(fn)
+				if idx < 0 || len(cs) == 0 {
+					continue
+				}
+				all := true
+				for _, site := range cs {
+					if site.Kind == "closure" || idx >= len(site.Args) || !nsIn(site.Args[idx], site.Caller, depth+1) {
+						all = false
+					}
+				}
+				if all {
+					return true
+				}
+			}
+		}
+		return false
+	}
+	for _, fn := range p.RepoFuncs() {
+		name := FuncName(fn)
+		if !(strings.HasPrefix(name, "pkg/")) {
+			continue
+		}
+		why := ""
+		for pre, w := range exempt {
+			if strings.HasPrefix(name, pre) {
+				why = w
+			}
+		}
+		for _, ci := range AllCalls(fn) {
+			cc := ci.Common()
+			if !cc.IsInvoke() || cc.Method.Name() != "List" || !strings.Contains(cc.Value.Type().String(), "client.") || len(cc.Args) < 3 {
+				continue
+			}
+			if why != "" {
+				c.Ob("R19.7", shortName(name)+"#List(exempt)", ci.Pos(), true, "cluster-wide by design: "+why, "")
+				continue
+			}
+			ok := nsIn(cc.Args[len(cc.Args)-1], fn, 0)
+			c.Ob("R19.7", shortName(name)+"#List("+strings.TrimPrefix(TermOf(cc.Args[1]).String(), "&")+")", ci.Pos(), ok, "the list options name a namespace",
+				ifs(!ok, "no InNamespace / ListOptions.Namespace among the options (nor supplied by every caller): objects of other namespaces that carry the same label values are returned, and a same-named workload of another tenant is taken for this rollout's"))
+		}
+	}
+
+	c.Rule("R19.8", "UpdateFinalizer edits the finalizer list of the object it fetched", 1)
+	uf := p.Func("pkg/util.UpdateFinalizer")
+	if uf == nil {
+		c.Unresolved("R19.8", "pkg/util.UpdateFinalizer")
+		return
+	}
+	fns := []*ssa.Function{uf}
+	fns = append(fns, uf.AnonFuncs...)
+	found := false
+	for _, f := range fns {
+		for _, ci := range AllCalls(f) {
+			cc := ci.Common()
+			if !cc.IsInvoke() || cc.Method.Name() != "SetFinalizers" {
+				continue
+			}
+			found = true
+			recv := rootOfObject(Forwarded(cc.Value))
+			bad := ""
+			for x := range BackwardSlice(cc.Args[0]) {
+				call, ok := x.(*ssa.Call)
+				if !ok || !call.Call.IsInvoke() || call.Call.Method.Name() != "GetFinalizers" {
+					continue
+				}
+				if src := rootOfObject(Forwarded(call.Call.Value)); src != recv {
+					bad = "the list handed to SetFinalizers is built from " + TermOf(call.Call.Value).String() + ".GetFinalizers() (" + p.Pos(call.Pos()) + "), not from the object that is written"
+				}
+			}
+			c.Ob("R19.8", "util.UpdateFinalizer#list-from-fetched-object", ci.Pos(), bad == "", "the new finalizer list derives from the freshly fetched object",
+				ifs(bad != "", bad+": the update carries the fresh resourceVersion, so the conflict check passes while finalizers added or removed by another worker since the caller's read are overwritten"))
+		}
+	}
+	if !found {
+		c.Unresolved("R19.8", "pkg/util.UpdateFinalizer: SetFinalizers call")
+	}
 }
